@@ -3,7 +3,7 @@
     distinct from every real outcome).  [children] lists hold trees (a node
     together with what [.children] unfolds to). *)
 Require Import AT.Model.Base AT.Model.Rose.
-Open Scope Z_scope.
+Local Open Scope Z_scope.
 
 Section Iter.
 Variables (f stop : id -> bool).   (* filter_, stop (defaults: fun _ => true / false) *)
